@@ -64,6 +64,16 @@ class LogAsync:
         self.log.append(("closesrc",))
 
 
+class LogAsyncIterable:
+    """an async iterable that is not its own iterator: __aiter__ hands out a separate cursor"""
+
+    def __init__(self, log, items):
+        self.cursor = LogAsync(log, items)
+
+    def __aiter__(self):
+        return self.cursor
+
+
 def wrap_items(log, items, awaitable):
     if not awaitable:
         return list(items)
@@ -78,7 +88,8 @@ def wrap_items(log, items, awaitable):
 
 def build(log, outer, cont, items_aw, items):
     its = wrap_items(log, items, items_aw)
-    c = {"list": lambda: LogList(log, its), "iter": lambda: LogIter(log, its), "async": lambda: LogAsync(log, its)}[cont]()
+    c = {"list": lambda: LogList(log, its), "iter": lambda: LogIter(log, its), "async": lambda: LogAsync(log, its),
+         "aiterable": lambda: LogAsyncIterable(log, its)}[cont]()
     if not outer:
         return c, its
 
@@ -129,7 +140,7 @@ def run(tier, seed):
     # ---- any_iter: all 12 shapes x lengths 0..6 x every number of consumer steps
     for n in range(0, 7):
         base = mk_items(n)
-        for outer, cont, iaw in itertools.product([False, True], ["list", "iter", "async"], [False, True]):
+        for outer, cont, iaw in itertools.product([False, True], ["list", "iter", "async", "aiterable"], [False, True]):
             results = []
             for take in range(0, n + 2):
                 log = []
@@ -154,7 +165,7 @@ def run(tier, seed):
                     rep.violation("adapters:any_iter-lazy", {"shape": [outer, cont, iaw], "items": n, "take": take, "why": "items awaited: %r" % (awaited,)})
                     continue
                 texts.append("CAnyIter (mkShape %s %s %s) [%s] %d [%s]" % (
-                    "true" if outer else "false", {"list": "CList", "iter": "CIter", "async": "CAsync"}[cont], "true" if iaw else "false",
+                    "true" if outer else "false", {"list": "CList", "iter": "CIter", "async": "CAsync", "aiterable": "CAsync"}[cont], "true" if iaw else "false",
                     "; ".join(coq_val(x) for x in base), take, "; ".join(coq_ev(e) for e in log)))
     # ---- await_each
     for n in range(0, 7):
